@@ -5,6 +5,10 @@
 pub use libc::*;
 
 pub unsafe fn io_uring_setup(entries: c_uint, p: *mut io_uring_params) -> c_int {
+    #[cfg(a10_verif)]
+    if let Some(hooks) = crate::verif::hooks() {
+        return (hooks.io_uring_setup)(entries, p.cast());
+    }
     syscall(SYS_io_uring_setup, entries as c_long, p as c_long) as _
 }
 
@@ -14,6 +18,10 @@ pub unsafe fn io_uring_register(
     arg: *const c_void,
     nr_args: c_uint,
 ) -> c_int {
+    #[cfg(a10_verif)]
+    if let Some(hooks) = crate::verif::hooks() {
+        return (hooks.io_uring_register)(fd, opcode, arg, nr_args);
+    }
     syscall(
         SYS_io_uring_register,
         fd as c_long,
@@ -31,6 +39,10 @@ pub unsafe fn io_uring_enter2(
     arg: *const libc::c_void,
     size: usize,
 ) -> c_int {
+    #[cfg(a10_verif)]
+    if let Some(hooks) = crate::verif::hooks() {
+        return (hooks.io_uring_enter2)(fd, to_submit, min_complete, flags, arg, size);
+    }
     syscall(
         SYS_io_uring_enter,
         fd as c_long,
@@ -40,6 +52,55 @@ pub unsafe fn io_uring_enter2(
         arg as c_long,
         size as c_long,
     ) as _
+}
+
+// Verification seams for the ring mappings and the synchronous close(2)
+// fallback. These shadow the glob imported functions from the libc crate.
+#[cfg(a10_verif)]
+pub unsafe fn mmap(
+    addr: *mut c_void,
+    len: size_t,
+    prot: c_int,
+    flags: c_int,
+    fd: c_int,
+    offset: off_t,
+) -> *mut c_void {
+    if let Some(hooks) = crate::verif::hooks() {
+        if let Some(res) = (hooks.mmap)(len, prot, flags, fd, offset) {
+            return res;
+        }
+    }
+    ::libc::mmap(addr, len, prot, flags, fd, offset)
+}
+
+#[cfg(a10_verif)]
+pub unsafe fn madvise(addr: *mut c_void, len: size_t, advice: c_int) -> c_int {
+    if let Some(hooks) = crate::verif::hooks() {
+        if let Some(res) = (hooks.madvise)(addr, len, advice) {
+            return res;
+        }
+    }
+    ::libc::madvise(addr, len, advice)
+}
+
+#[cfg(a10_verif)]
+pub unsafe fn munmap(addr: *mut c_void, len: size_t) -> c_int {
+    if let Some(hooks) = crate::verif::hooks() {
+        if let Some(res) = (hooks.munmap)(addr, len) {
+            return res;
+        }
+    }
+    ::libc::munmap(addr, len)
+}
+
+#[cfg(a10_verif)]
+pub unsafe fn close(fd: c_int) -> c_int {
+    if let Some(hooks) = crate::verif::hooks() {
+        if let Some(res) = (hooks.close)(fd) {
+            return res;
+        }
+    }
+    ::libc::close(fd)
 }
 
 // Work around for <https://github.com/rust-lang/rust-bindgen/issues/1642>,
